@@ -255,6 +255,37 @@ def run_sequence(cfg, seq):
     return None
 
 
+def run_sequence_batched(cfg, seq):
+    """the same operations inside one hub.delay_callbacks() block: when the block closes every change must still be announced
+    (the multiset of messages equals the sum of what each change calls for)"""
+    w = World(*cfg)
+    w.rec.take()
+    hub = w.d.hub
+    if hub is None:
+        return None
+    exp_all = []
+    predicted = True
+    with hub.delay_callbacks():
+        for i, op in enumerate(seq):
+            exp, err = w.do(op)
+            if err:
+                return i, ('operation', err)
+            if exp is None:
+                predicted = False
+            else:
+                exp_all += list(exp)
+        inside = w.rec.take()
+        if inside:
+            return len(seq) - 1, ('batched-messages', "messages %s were delivered before the delay block closed" % sorted(k for k, m in inside))
+    got = sorted(k for k, m in w.rec.take())
+    bad = invariant(w.d)
+    if bad:
+        return len(seq) - 1, ('invariant', '; '.join(bad[:3]))
+    if predicted and got != sorted(exp_all):
+        return len(seq) - 1, ('batched-messages', "inside one delay block the changes call for %s, announced when it closed: %s" % (sorted(exp_all), got))
+    return None
+
+
 def run(tier, seed, R):
     rng = random.Random(seed)
     L = 2 if tier == 'quick' else 3
@@ -262,7 +293,8 @@ def run(tier, seed, R):
     R.rule = ("real Data (1-d/2-d, with/without coordinates, inside/outside a collection, with two chained derived attributes): ALL operation sequences of length <= %d over %d "
               "operations (add/remove/reorder/rename/update_id/update_components/update_values_from_data/coords changes, valid and invalid arguments) + random sequences of "
               "length 4-7; after every step: every attribute has the dataset's shape, one pixel id per dimension, world ids iff coordinates, unique ids, stable order, lookup by "
-              "name = unique match by documented precedence, and the multiset of hub messages equals the documented messages of the change that happened. "
+              "name = unique match by documented precedence, and the multiset of hub messages equals the documented messages of the change that happened; the same histories with "
+              "every change made inside one hub.delay_callbacks() block (nothing delivered inside, everything announced when it closes). "
               "non-trivial = distinct (configuration, sequence) containing a structural change" % (L, len(OPS)))
     R.exhaustive = True
 
@@ -290,4 +322,19 @@ def run(tier, seed, R):
                 one(cfg, seq)
     for _ in range(600 if tier == 'quick' else 6000):
         one(rng.choice(cfgs), tuple(rng.choice(OPS) for _ in range(rng.randint(4, 7))))
+    # the same histories with all changes made inside one delay block of the hub
+    for cfg in cfgs:
+        for n in range(1, L + 1):
+            for seq in itertools.product(OPS, repeat=n):
+                try:
+                    r = run_sequence_batched(cfg, seq)
+                except Exception as e:
+                    r = (len(seq) - 1, ('exception:%s' % type(e).__name__, "%s: %s" % (type(e).__name__, e)))
+                R.count((cfg, seq, 'batched'), 'data-histories-in-a-delay-block')
+                if r is not None:
+                    i, (kind, detail) = r
+                    kinds = sorted(set(o[0] for o in seq[:i + 1]))
+                    R.fail("structure|batched|%s|%s" % (kind, '+'.join(kinds)),
+                           "dataset(in_collection=%s, coords=%s, ndim=%d) history %r inside hub.delay_callbacks(): %s" % (cfg + (list(seq), detail)),
+                           "from bounded.c17_structure import run_sequence_batched\nr = run_sequence_batched(%r, %r)\nprint(r)\nsys.exit(1 if r else 0)\n" % (cfg, list(seq)))
     R.samples.append({"history": "2-d dataset with coordinates in a collection: set_coords affine, remove a (c and e go too), add, reorder reverse -> invariant + messages after each"})
